@@ -1,4 +1,6 @@
 //! Reference models, written from the standards / property statements and
 //! independent of the code under test.
-pub mod mnemonic;
+pub mod big;
+pub mod dec;
 pub mod esr;
+pub mod mnemonic;
